@@ -11,28 +11,42 @@ Ties Model/Cron.v to the real cron-trigger code of /repo:
               engine client and a fake keystone trust client; real sqlite rows are read back with raw SQL
               after every step.  croniter's values (the real triggers.get_next_execution_time) are tabulated
               per case and handed to the model as `nxt`.
+  inside      the same processors, additionally suspended INSIDE the real db_api.delete_cron_trigger /
+              update_cron_trigger (called by the real advance_cron_trigger / triggers.delete_cron_trigger): a hook on
+              the SQLAlchemy engine (before_cursor_execute) stops a processor right before the first DELETE / UPDATE
+              statement on cron_triggers_v2 of its call, i.e. after the call's SELECT and access check, with its own
+              DB session and transaction open (mistral's thread-local storage is switched per processor).  The other
+              processors then run their whole delete / update and commit before it resumes.  Cases: 2-3 processors;
+              last occurrence (count 1, first-execution-time-only, first time + count 1) with EVERY order of who
+              selects / writes first (6 orders for two, 90 for three processors); count 2 / no count / count 3 over 2-3
+              occurrences with every order on the first or the last one; free-form schedules with ticks, crashes and
+              RPC failures while a processor is inside its call.  Model steps: Sel i k / Wr i (Adv = both at once).
 Oracle (no model involved): on the observed rows / start_workflow calls of the real run
   once        each start belongs to an occurrence (a value of next_execution_time the row held and left),
-              at most one start per occurrence, exactly one unless the winner crashed / its RPC failed
+              at most one start per occurrence, exactly one unless the winner crashed / its RPC failed; when the
+              second start comes from a processor whose write inside delete_ / update_cron_trigger changed no row the
+              signature is occurrence-twice:inside-delete / occurrence-twice:inside-update
   count       starts <= count, row removed exactly when the count is used up, first-time-only fires once
-  forward     every change of next_execution_time is to croniter(pattern, max(now, previous)) > previous
+  forward     every change of next_execution_time is to croniter(pattern, max(clock the writer saw, previous)) > previous
   context     every start carries the trigger's workflow, input, params, description id and runs under a
               context of the trigger's project (and trust when auth is enabled)
   not-early   nothing fires more than 2 s before its due time
 
-The lookup mode of advance_cron_trigger (row addressed by t.name or by t.id) is extracted from the source on every
-run (translate/tr_croncfg.py -> Gen/CronCfg.v, lookup_by_name) and selects the model's `resolve`.
+Extracted from the source on every run (translate/tr_croncfg.py -> Gen/CronCfg.v, fail closed):
+  lookup_by_name           advance_cron_trigger addresses the row by t.name or by t.id (selects the model's `resolve`)
+  delete_reports_rowcount  db api delete_cron_trigger returns the row count of `DELETE ... WHERE id = <selected row>`
+  update_reports_match     db api update_cron_trigger(query_filter) = update_on_match on id + filter, NoRowsMatched -> 0
+  (+ recognised-or-error: triggers.delete_cron_trigger passes the count on, advance_cron_trigger returns count > 0,
+  process_cron_triggers_v2 starts only under `if modified:`).  The two flags are parameters of the model's Wr step (what a
+  write that changed no row reports) and every theorem of Properties/C17.v is proved from both being `true`.
 
-FINDING on the unchanged tree (signature `same-name-public-trigger`, theorems C17_*_refuted_ambiguous_names):
-advance_cron_trigger addresses the row by NAME; get_cron_trigger(name) under the trigger's project context also sees
+Earlier FINDING, fixed in /repo since (signature `same-name-public-trigger`, theorems C17_*_refuted_ambiguous_names):
+advance_cron_trigger addressed the row by NAME; get_cron_trigger(name) under the trigger's project context also sees
 other projects' PUBLIC triggers and returns `.first()`. With a private trigger `a` in one project and a public trigger
-`a` in another, advancing the private one updates / overwrites the public one's row (next time and count), its own
-row is not advanced, one occurrence is started twice, a count-1 trigger fires twice (CORPUS[4], CORPUS[5]).
-Minimal fix tested in a scratch worktree: pass `t.id` instead of `t.name` to delete_cron_trigger and
-update_cron_trigger in periodic.advance_cron_trigger (check then exits 0; the model follows through Gen/CronCfg.v).
+`a` in another, advancing the private one updated / overwrote the public one's row, one occurrence was started twice,
+a count-1 trigger fired twice (CORPUS[4], CORPUS[5]).  The code now passes t.id (lookup_by_name = false).
 
-Self-test mutations (each applied alone to a scratch worktree of /repo; each gives its own VIOLATION line, in
-addition to the finding above):
+Self-test mutations (each applied alone to a scratch worktree of /repo; each gives its own VIOLATION line):
   M1 periodic.advance_cron_trigger: query_filter=None (no compare-and-swap)         -> occurrence-twice, next-not-forward, removed-early
   M2 periodic.advance_cron_trigger: croniter from t.next_execution_time, not max(now, ..) -> next-not-pattern
   M3 periodic.advance_cron_trigger: decrement only if remaining_executions > 1      -> count-exceeded, not-removed, count-changed
@@ -40,10 +54,22 @@ addition to the finding above):
   M5 periodic.process_cron_triggers_v2: trust context not installed before the start -> context:trust
   M6 triggers.get_next_cron_triggers: window of 60 s instead of 2 s                  -> early-start
   M7 triggers.validate_cron_trigger_input: `count > 2` without pattern               -> first-only-count (+ create disagreement)
-  M8 db api update_cron_trigger: NoRowsMatched returns (trigger, 1)                  -> double-start, count-exceeded
+  M8 db api update_cron_trigger: NoRowsMatched returns (trigger, 1)                  -> update_reports_match = false (every
+     theorem broken), double-start, occurrence-twice:inside-update, count-exceeded; the model with the flag false
+     still agrees with the code
   M9 periodic.process_cron_triggers_v2: start_workflow with {} instead of the input -> context:input
   MX periodic.advance_cron_trigger: delete by t.id, update by t.name                 -> translate:Gen/CronCfg.v broken (fail closed)
-Every mutation is also seen as model/implementation disagreements by the correspondence.
+  (M1 and M4 are now also refused by the translator: count chain / query_filter shape.)
+ seen only by `inside` (every whole-call interleaving behaves correctly):
+  S2 db api delete_cron_trigger: `session.delete(row); return 1` (seeded, round 2)   -> delete_reports_rowcount = false (every
+     theorem broken), occurrence-twice:inside-delete, count-exceeded; model with the flag false agrees with the code
+  N1 db api update_cron_trigger: filter compared in Python on the selected object, then `row.update(values); return row, 1`
+                                                                                    -> translate broken, occurrence-twice:inside-update
+  N2 db api delete_cron_trigger: `count = query.filter_by(id=..).count(); session.delete(row); return count`
+                                                                                    -> translate broken, occurrence-twice:inside-delete
+  N3 db api update_cron_trigger: NoRowsMatched handler falls through to `return row, 1` after the try
+                                                                                    -> translate broken, double-start, occurrence-twice:inside-update
+  N0 db api delete_cron_trigger: variables renamed (same shape)                      -> exit 0 (no false alarm)
 """
 import datetime
 import json
@@ -53,23 +79,35 @@ from harness import core
 GEN = ['CronCfg']
 
 MANIFEST = {
-    'level_text': 'Coq theorems over Model/Cron.v (step-granular protocol model: Tick/Read/Adv/Start/Drop/Crash; any number of '
-                  'processors and triggers, arbitrary step lists = all interleavings of the database steps, any nxt with '
-                  't < nxt t): a 12-clause invariant proved by induction gives at most one start per (trigger, due time), '
-                  'every consumed occurrence started / pending / lost to a crash (exactly one without crash), starts <= count and '
-                  'removal exactly at 0, first-time-only fires once, next moves to nxt(max(now,next)) > next, starts carry the '
-                  "trigger's payload and project, nothing fires > 2 s early; under `lookup by name` they need unambiguous names "
-                  'and are REFUTED without (C17_*_refuted_ambiguous_names = a defect of the code). Model tied to periodic.py / '
-                  'triggers.py / db api by differential runs of the real process_cron_triggers_v2 in 1-3 greenlets suspended at '
-                  'every DB/RPC step, and of create_cron_trigger on an exhaustive decision table.',
+    'level_text': 'Coq theorems over Model/Cron.v (protocol model finer than database calls: Tick/Read/Sel/Wr/Adv/Start/Drop/Crash, '
+                  'where Sel is the SELECT and Wr the DELETE / conditional UPDATE statement of one delete_cron_trigger / '
+                  'update_cron_trigger call and Adv both at once; any number of processors and triggers, arbitrary step lists = all '
+                  'interleavings including other processors acting between a call\'s SELECT and its write, any nxt with t < nxt t): '
+                  'a 13-clause invariant proved by induction gives at most one start per (trigger, due time), every consumed '
+                  'occurrence started / pending / lost to a crash (exactly one without crash), starts <= count and removal exactly '
+                  'at 0, first-time-only fires once, next moves to nxt(max(clock seen by the writer, next)) > next, starts carry the '
+                  "trigger's payload and project, nothing fires > 2 s early. All proved from delete_reports_rowcount = true and "
+                  'update_reports_match = true, the compare-and-swap shape of db api delete_cron_trigger / update_cron_trigger extracted '
+                  'from the source on every run (Gen/CronCfg.v; the Properties theorems are instantiated with the generated constants, '
+                  'so a changed flag breaks them), and REFUTED with two-processor witnesses when either flag is false '
+                  '(C17_last_occurrence_twice_when_delete_not_rowcount, C17_occurrence_twice_when_update_not_matched); under '
+                  '`lookup by name` they need unambiguous names and are refuted without (C17_*_refuted_ambiguous_names; the code '
+                  'now looks up by id). Model tied to periodic.py / triggers.py / db api by differential runs of the real '
+                  'process_cron_triggers_v2 in 1-3 greenlets suspended at every DB/RPC step and, in suite `inside`, also between '
+                  'the SELECT and the DELETE / UPDATE inside the real db api calls (every order of 2-3 processors on a last '
+                  'occurrence), and of create_cron_trigger on an exhaustive decision table.',
     'level_note': 'Trusted: croniter (tabulated per case as nxt; only t < nxt t is assumed, checked on every table), '
-                  'SQLAlchemy/sqlite atomicity of one statement (conditional UPDATE / DELETE = one model step), keystone (fake '
-                  'trust client), the suspension points (= the DB/RPC calls of process_cron_triggers_v2), translator '
-                  'tr_croncfg.py (lookup by name / id). Not modelled: a trigger whose NAME equals another trigger\'s id '
-                  '(get_cron_trigger matches id OR name); API delete/re-create of a trigger between read and advance; '
-                  'MySQL DATETIME truncation. Counts < 1 are outside the REST type (minimum=1, checked) and outside the count theorem.',
-    'technique': 'Coq invariant proof over a step-granular protocol model; interleaving-driven differential correspondence; '
-                 'source-extracted lookup mode',
+                  'SQLAlchemy/sqlite/oslo.db update_on_match atomicity of ONE statement (a DELETE / conditional UPDATE with its row '
+                  'count = one model step; SELECT and write of a call are separate steps), READ COMMITTED visibility between '
+                  'sessions (what the shared in-memory sqlite connection gives), keystone (fake trust client), the suspension points '
+                  '(the DB/RPC calls of process_cron_triggers_v2 and the first DELETE/UPDATE statement on cron_triggers_v2 inside '
+                  'advance_cron_trigger, hooked at the SQLAlchemy engine), translator tr_croncfg.py (lookup by name / id, shapes of '
+                  'delete_cron_trigger / update_cron_trigger, count chain; anything else is refused). Not modelled: a trigger whose '
+                  'NAME equals another trigger\'s id (get_cron_trigger matches id OR name); API delete/re-create of a trigger between '
+                  'read and advance; MySQL DATETIME truncation; a processor dying between its write and its commit. Counts < 1 are '
+                  'outside the REST type (minimum=1, checked) and outside the count theorem.',
+    'technique': 'Coq invariant proof over a statement-granular protocol model parametrised by source-extracted compare-and-swap '
+                 'flags; interleaving-driven differential correspondence down to SELECT / write inside the db api calls',
     'design_ref': '6 C17',
 }
 
@@ -736,7 +774,7 @@ def oracle(ctx, case, log):
                     'trigger %d occurrence %s started %d times by processors %r: a processor that had selected the row '
                     'inside %s_cron_trigger before another processor %sd it reported a modified row although its own %s '
                     'changed nothing' % (k, o, n, [s['proc'] for s in my if s['snap_next'] == o], unmoved[o],
-                                         unmoved[o][:-1] if unmoved[o] == 'delete' else unmoved[o], unmoved[o].upper()))
+                                         unmoved[o], unmoved[o].upper()))
             elif n > 1:
                 bad('double-start', 'trigger %d occurrence %s started %d times' % (k, o, n))
             if o not in occs:
@@ -960,6 +998,121 @@ CORPUS = [
 ]
 
 
+# ---------------------------------------------------------------------------
+# processors interleaved INSIDE db_api.delete_cron_trigger / update_cron_trigger (case['fine']): a `run` step also
+# stops right before the DELETE / UPDATE statement of the call, so the other processors act between a call's SELECT
+# and its write.
+
+INSIDE_CORPUS = [
+    # last occurrence of a count-1 trigger: both processors select the row, 1 deletes and starts, then 0's DELETE
+    # matches nothing (the interleaving of the change seeded in round 2: delete_cron_trigger returning a constant)
+    {'auth': True, 't0': 100000, 'nproc': 2, 'fine': True, 'triggers': [
+        {'name': 'a', 'project': 0, 'pattern': '* * * * *', 'first': None, 'count': 1, 'start': None,
+         'input': {'x': 1}, 'params': {'tag': 'p0'}, 'scope': 'private'}],
+     'steps': [['tick', 19], ['run', 0], ['run', 1], ['run', 0], ['run', 1], ['run', 1], ['run', 1], ['run', 0], ['run', 0]]},
+    # first-execution-time-only trigger, three processors inside delete_cron_trigger at once
+    {'auth': False, 't0': 100000, 'nproc': 3, 'fine': True, 'triggers': [
+        {'name': 'a', 'project': 0, 'pattern': None, 'first': 100060, 'count': None, 'start': None,
+         'input': {'x': 1}, 'params': {}, 'scope': 'private'}],
+     'steps': [['tick', 59], ['run', 0], ['run', 1], ['run', 2], ['run', 2], ['run', 0], ['run', 1], ['run', 0], ['run', 1],
+               ['run', 2], ['run', 0], ['run', 1], ['run', 2]]},
+    # count 2: both inside update_cron_trigger on the first occurrence (the loser's UPDATE matches no row), then both
+    # inside delete_cron_trigger on the last one; the clock moves while a processor is inside its call
+    {'auth': True, 't0': 100000, 'nproc': 2, 'fine': True, 'triggers': [
+        {'name': 'a', 'project': 1, 'pattern': '* * * * *', 'first': None, 'count': 2, 'start': None,
+         'input': {'x': 1}, 'params': {'tag': 'p0'}, 'scope': 'public'}],
+     'steps': [['tick', 19], ['run', 0], ['run', 1], ['run', 0], ['run', 1], ['tick', 70], ['run', 0], ['run', 1], ['run', 0],
+               ['run', 1], ['run', 0], ['run', 1], ['run', 1], ['run', 0], ['run', 0], ['run', 1], ['run', 0], ['run', 1]]},
+    # the processor inside the call dies before its DELETE; the other one takes the occurrence
+    {'auth': True, 't0': 100000, 'nproc': 2, 'fine': True, 'triggers': [
+        {'name': 'a', 'project': 0, 'pattern': '*/5 * * * *', 'first': None, 'count': 1, 'start': None,
+         'input': {'x': 1}, 'params': {}, 'scope': 'private'}],
+     'steps': [['tick', 199], ['run', 0], ['run', 1], ['run', 0], ['crash', 0], ['run', 1], ['run', 1], ['run', 1], ['run', 0]]},
+]
+
+INSIDE_KINDS = [
+    # (name, pattern, first (offset from t0), count, occurrences driven)
+    ('count-1', '* * * * *', None, 1, 1),
+    ('first-time-only', None, 60, None, 1),
+    ('first-time-count-1', None, 120, 1, 1),
+    ('count-2', '* * * * *', None, 2, 2),
+    ('no-count', '*/2 * * * *', None, None, 2),
+    ('count-3', '* * * * *', None, 3, 3),
+]
+
+
+def orders(nproc):
+    """All orders in which nproc processors do their SELECT and then their write: every sequence over the
+    processors in which each one occurs twice (6 for two processors, 90 for three)."""
+    out = []
+
+    def rec(prefix, left):
+        if not any(left):
+            out.append(list(prefix))
+            return
+        for i in range(nproc):
+            if left[i]:
+                left[i] -= 1
+                prefix.append(i)
+                rec(prefix, left)
+                prefix.pop()
+                left[i] += 1
+    rec([], [2] * nproc)
+    return out
+
+
+def inside_case(kind, nproc, auth, t0, round_orders, rng):
+    name, pattern, first, count, occs = kind
+    period = 120 if pattern == '*/2 * * * *' else 60
+    trig = {'name': 'a', 'project': rng.randrange(2) if auth else 0, 'pattern': pattern,
+            'first': None if first is None else t0 + first, 'count': count, 'start': None,
+            'input': {'x': 1}, 'params': {'tag': 'p0'}, 'scope': rng.choice(['private', 'private', 'public'])}
+    steps = []
+    for r in range(occs):
+        # to the due time (a whole minute / two minutes later is due for every pattern used here)
+        steps.append(['tick', (first + rng.choice([0, 1, 30])) if (r == 0 and first is not None)
+                      else period * rng.choice([1, 1, 1, 2]) + rng.choice([0, 0, 1])])
+        readers = list(range(nproc))
+        rng.shuffle(readers)
+        steps += [['run', i] for i in readers]                 # every processor reads the due trigger
+        steps += [['run', i] for i in round_orders[r]]         # SELECTs and writes in the given order
+        late = list(range(nproc))
+        rng.shuffle(late)
+        steps += [['run', i] for i in late] * 2                # the starts, then the passes end
+    return {'auth': auth, 't0': t0, 'nproc': nproc, 'fine': True, 'triggers': [trig], 'steps': steps, 'kind': name}
+
+
+def inside_cases(ctx):
+    rng = ctx.rng
+    out = []
+    allo = {n: orders(n) for n in (2, 3)}
+    for kind in INSIDE_KINDS:
+        occs = kind[4]
+        for nproc in (2, 3):
+            for auth in (True, False):
+                t0 = rng.choice(T0S[:3]) // 120 * 120
+                if occs == 1:
+                    # exhaustive: every order of who selects / writes first
+                    for o in allo[nproc]:
+                        out.append(inside_case(kind, nproc, auth, t0, [o], rng))
+                else:
+                    # every order on the LAST occurrence (and on the first one), the other rounds drawn
+                    n = ctx.n(1, 4) * (len(allo[nproc]) if nproc == 2 else 30)
+                    pick = allo[nproc] if nproc == 2 else rng.sample(allo[nproc], 30)
+                    for j in range(n):
+                        ro = [rng.choice(allo[nproc]) for _ in range(occs)]
+                        ro[-1 if j % 2 == 0 else 0] = pick[j % len(pick)]
+                        out.append(inside_case(kind, nproc, auth, t0, ro, rng))
+    # free-form: the generator of the `run` suite with the extra suspension point (ticks, crashes and RPC failures
+    # while a processor is inside its call, several triggers)
+    for _ in range(ctx.n(250, 3000)):
+        c = gen_case(rng)
+        c['fine'] = True
+        c['nproc'] = rng.choice([2, 2, 3])
+        out.append(c)
+    return out
+
+
 def rest_count_type():
     from wsme import types as wtypes
     from mistral.api.controllers.v2 import resources
@@ -1168,6 +1321,25 @@ def run_cases(ctx, cases, tag, with_model=True):
         dist['starts'] += len(log['starts'])
         dist['adv_won'] += sum(1 for e in log['steps'] if e['obs'][0] == 'adv' and e['obs'][3])
         dist['adv_lost'] += sum(1 for e in log['steps'] if e['obs'][0] == 'adv' and not e['obs'][3])
+        if case.get('fine'):
+            for e in log['steps']:
+                ob = e['obs']
+                if ob[0] == 'wr':
+                    key = 'write_%s_%s' % (ob[5], 'won' if ob[3] else 'lost')
+                    dist[key] = dist.get(key, 0) + 1
+            # two or more processors inside a call on the same row at the same time
+            inside = {}
+            for e in log['steps']:
+                ob = e['obs']
+                if ob[0] == 'sel':
+                    inside[ob[1]] = ob[2]
+                    if sum(1 for v in inside.values() if v == ob[2]) > 1:
+                        dist['overlapping_calls'] = dist.get('overlapping_calls', 0) + 1
+                elif ob[0] in ('wr', 'crash'):
+                    inside.pop(ob[1], None)
+            if case.get('kind'):
+                dist.setdefault('kinds', {})
+                dist['kinds'][case['kind']] = dist['kinds'].get(case['kind'], 0) + 1
         dist['crash_or_rpc_loss'] += len(log['lost'])
         dist['lag_ticks'] += sum(1 for e in log['steps'] if e['obs'][0] == 'tick' and e['obs'][1] >= 3600)
         dist['nproc'][str(case.get('nproc'))] = dist['nproc'].get(str(case.get('nproc')), 0) + 1
@@ -1215,8 +1387,11 @@ def copy_case(c):
 def run(ctx):
     ctx.cov['rule'] = ('create: exhaustive table pattern(7) x first time(10) x count(6) x start(2) x clock(2); run: seeded cases of '
                        '1-3 triggers (pattern/first/count/start/scope/project/name collisions) x 1-3 processors x adaptive '
-                       'schedules of DB steps (ticks to the due boundary, long lags, crashes, RPC failures); distinct = distinct '
-                       'case; non-trivial = at least one workflow start (create: accepted)')
+                       'schedules of DB steps (ticks to the due boundary, long lags, crashes, RPC failures); inside: processors '
+                       'also suspended between SELECT and DELETE/UPDATE inside the db api calls - 6 trigger kinds x 2-3 processors '
+                       'x auth on/off x every order of selects / writes on a last occurrence (6 / 90), drawn orders on earlier '
+                       'ones, + free-form schedules; distinct = distinct case; non-trivial = at least one workflow start '
+                       '(create: accepted)')
     import time
     tm = ctx.cov.setdefault('timing_s', {})
     t = time.time()
@@ -1228,10 +1403,15 @@ def run(ctx):
         run_cases(ctx, [copy_case(c) for c in CORPUS], 'run_corpus')
         run_cases(ctx, [gen_case(ctx.rng) for _ in range(ctx.n(1200, 12000))], 'run')
         tm['run'] = round(time.time() - t, 1)
+        t = time.time()
+        run_cases(ctx, [copy_case(c) for c in INSIDE_CORPUS], 'inside_corpus')
+        run_cases(ctx, inside_cases(ctx), 'inside')
+        tm['inside'] = round(time.time() - t, 1)
     finally:
         stop_pool()
     ctx.assumptions += ['croniter is an oracle: the model gets its values as a table (t < nxt t checked on every table)',
-                        'one database call of the real code (SELECT / conditional UPDATE / DELETE) is atomic',
+                        'one SQL statement of the real code (SELECT / conditional UPDATE / DELETE with its row count) is atomic; '
+                        'the SELECT and the write of one delete_cron_trigger / update_cron_trigger call are NOT (suite inside)',
                         'processors share nothing but the database (per-processor auth context restored on every switch)']
 
 
@@ -1247,6 +1427,7 @@ def stop_pool():
 def search(ctx):
     """Widened oracle-only search for a failing input (no model involved)."""
     run_cases(ctx, [gen_case(ctx.rng) for _ in range(1200)], "search", with_model=False)
+    run_cases(ctx, [copy_case(c) for c in INSIDE_CORPUS] + inside_cases(ctx), "search_inside", with_model=False)
 
 
 def replay(obj):
@@ -1274,8 +1455,16 @@ def replay(obj):
         return 1
     case = copy_case(r['case'])
     log = execute(case)
+    if case.get('fine'):
+        print('processors are also suspended INSIDE db_api.delete_cron_trigger / update_cron_trigger, between the SELECT of the '
+              'row and the DELETE / UPDATE statement')
     for e in log['steps']:
-        print('%-18s -> %-40s rows=%s clock=%s' % (e['step'], e['obs'], e['view'], e['clock']))
+        ob, note = e['obs'], ''
+        if ob[0] == 'sel':
+            note = '   # processor %d inside %s_cron_trigger: row SELECTed, %s not sent yet' % (ob[1], ob[5], ob[5].upper())
+        elif ob[0] == 'wr':
+            note = '   # processor %d sends its %s and commits; advance_cron_trigger returns %s' % (ob[1], ob[5].upper(), ob[3])
+        print('%-18s -> %-44s rows=%s clock=%s%s' % (e['step'], ob, e['view'], e['clock'], note))
     for s in log['starts']:
         print('start: trigger=%s occurrence=%s input=%s params=%s ctx=%s' % (
             {v['id']: k for k, v in log['trig'].items()}.get(s['snap_id']), s['snap_next'], s['input'], s['params'], s['ctx']))
